@@ -139,7 +139,7 @@ def build(rng, steps, ctx, final_ops, declared_dims_at):
 
 
 def gen_cases(rng, tier):
-    n = 60 if tier == "thorough" else 10
+    n = 60 if tier == "thorough" else 16
     cases = []
     for _ in range(n):
         g = HistGen(rng, with_invalid=False, simple_derived=0.8)
@@ -166,7 +166,7 @@ def gen_cases(rng, tier):
             cases.append({"ops": ops, "fork": True, "meta": meta, "ctx": full.dump(),
                           "cls_after": cls_after, "nsetup": 0,
                           "tags": ["order:" + label]})
-    for _ in range(12 if tier == "thorough" else 4):
+    for _ in range(12 if tier == "thorough" else 6):
         cases.append(gen_price_case(rng))
     return cases
 
